@@ -33,6 +33,8 @@ def ev(f, o, env, depth=0):
             return int(e['cv'])
         raise Unsupported('variable ' + e.get('name', '?'))
     if k == 'member':
+        if 'cv' in e:
+            return int(e['cv'])      # static constexpr data member
         key = ('member', e.get('name'))
         b = f.resolve(e['base'])
         if isinstance(b, dict) and b.get('k') == 'this' and key in env:
